@@ -343,8 +343,8 @@ namespace BitSerializer::Convert::Detail
 				}
 				utc.SecFractions = ns;
 			}
-			// Should have 'Z' at the end of UTC datetime
-			if (pos == end || *pos != 'Z') {
+			// Should have 'Z' at the end of UTC datetime (and nothing after it)
+			if (pos == end || *pos != 'Z' || pos + 1 != end) {
 				throw std::invalid_argument("Input string is not a valid ISO datetime: YYYY-MM-DDThh:mm:ss[.SSS]Z");
 			}
 			return utc;
